@@ -36,6 +36,13 @@ def build(tier="quick"):
     pre = "let a: A3 = arr![1, 2, 3];\n    let b: GenericArray<u8, %s> = GenericArray::default();\n"
     add("inverted_zip_own", fn(pre % "U3" + "    let c = b.inverted_zip(a, |x, y| { let _ = (&x, &y); 0u8 });"), fn(pre % "U4" + "    let c = b.inverted_zip(a, |x, y| { let _ = (&x, &y); 0u8 }); //~"), LEN)
     add("inverted_zip_ref", fn(pre % "U3" + "    let c = (&b).inverted_zip(a, |x, y| { let _ = (&x, &y); 0u8 });"), fn(pre % "U4" + "    let c = (&b).inverted_zip(a, |x, y| { let _ = (&x, &y); 0u8 }); //~"), LEN)
+    # ---- comparisons whose right-hand side is left to inference: `==` on a GenericArray has one candidate impl, so the compiler infers type and
+    # ---- length of the other side from the left one (a second PartialEq impl for GenericArray makes these correct programs ambiguous: E0283)
+    for nm, rhs in (("into", "[5u8, 7, 9].into()"), ("default", "Default::default()"), ("generate", "GenericArray::generate(|i| i as u8)"),
+                    ("collect", "(0u8..3).collect()"), ("from_iter", "core::iter::FromIterator::from_iter(0u8..3)")):
+        pre = "let a: A3 = arr![1, 2, 3];\n    let b: %s = arr![4, 5, 6%s];\n"
+        body = "    let c = a.zip(b, |x, y| x + y);%s\n    let _ = c == " + rhs + ";"
+        add("eq_inferred_rhs_" + nm, fn(pre % ("A3", "") + body % ""), fn(pre % ("GenericArray<u8, U4>", ", 7") + body % " //~"), LEN)
     # ---- comparisons ---------------------------------------------------------------------------
     for nm, ex in (("eq", "a == b"), ("cmp", "a.cmp(&b) == core::cmp::Ordering::Less"), ("partial_cmp", "a.partial_cmp(&b).is_some()"), ("ne", "a != b")):
         pre = "let a: A3 = arr![1, 2, 3];\n    let b: GenericArray<u8, %s> = GenericArray::default();\n"
